@@ -142,6 +142,19 @@ def oneAcquisitionPerFn (ops : List Op) : Bool :=
 def writesOutside (mask : Nat) (ops : List Op) : Bool :=
   ops.all (fun o => o.kind == .read || !reach mask o.fn)
 
+/-- **Lock order of a table with one lock.**  `mask` (computed by the translator, checked here) contains every
+callee of a function that acquires and is closed under the call edges — so it contains everything that can run
+while the lock is held — and contains no function that acquires: a call never asks for a lock of this table
+while it holds one, so a call that waits holds nothing and the wait-for graph has no cycle. -/
+def noNestedAcquisition (mask : Nat) (edges : List (Nat × Nat)) (ops : List Op) : Bool :=
+  closed mask edges && edges.all (fun e => !(ops.any (fun o => o.fn == e.1)) || reach mask e.2) &&
+  ops.all (fun p => !reach mask p.fn)
+
+/-- every operation is a read or a write acquisition of the one location `loc` -/
+def singleRwLock (locs : List Loc) (ops : List Op) (loc : Nat) : Bool :=
+  (match locs[loc]? with | some l => l.kind == .rwlock | none => false) &&
+  ops.all (fun o => o.loc == loc && (o.kind == .read || o.kind == .write))
+
 /-! ## 2. Interleaving semantics -/
 
 /-- `σ`: the private state of a call (its scope, locals, result); `R`: the registries of the
